@@ -16,15 +16,15 @@ import (
 
 // recCase: a chain with Recovery somewhere, a panic somewhere later, a request sequence (C15).
 type recCase struct {
-	Env    string   `json:"env"`    // development | production | test
+	Env    string   `json:"env"`                        // development | production | test
 	Built  string   `json:"assembled_in_env,omitempty"` // the instance (incl. Recovery) is assembled while this environment is set, then the environment is switched to Env (serial cases only)
-	Pre    int      `json:"pre"`    // middleware placed before Recovery
-	Mid    []string `json:"mid"`    // handlers between Recovery and the panic site: plain | next | write-next
-	Where  string   `json:"where"`  // route | action | notfound | group
-	Phase  string   `json:"phase"`  // before | after-header | after-body
-	Kind   string   `json:"kind"`   // string | error | runtime | struct | int | abort | dep
-	Marker string   `json:"marker"` // unique text carried by the panic value
-	Seq    []string `json:"seq"`    // ok | panic …
+	Pre    int      `json:"pre"`                        // middleware placed before Recovery
+	Mid    []string `json:"mid"`                        // handlers between Recovery and the panic site: plain | next | write-next
+	Where  string   `json:"where"`                      // route | action | notfound | group
+	Phase  string   `json:"phase"`                      // before | after-header | after-body
+	Kind   string   `json:"kind"`                       // string | error | runtime | struct | int | abort | dep
+	Marker string   `json:"marker"`                     // unique text carried by the panic value
+	Seq    []string `json:"seq"`                        // ok | panic …
 }
 
 type c15Missing struct{ _ int }
